@@ -1714,6 +1714,16 @@ void Parser::ParserImpl::loadResetChild(const std::string &childType, const Rese
     XmlNodePtr mathNode = node->firstChild();
     while (mathNode != nullptr) {
         if (mathNode->isMathmlElement("math")) {
+            // Copy any namespaces that do not feature as a namespace definition
+            // of the math node into the math node (as done for the math of a
+            // component), so that the math is a self contained XML document.
+            auto mathElementDefinedNamespaces = mathNode->definedNamespaces();
+            auto possiblyUndefinedNamespaces = traverseTreeForUndefinedNamespaces(mathNode->firstChild());
+            auto undefinedNamespaces = determineMissingNamespaces(possiblyUndefinedNamespaces, mathElementDefinedNamespaces);
+            for (const auto &undefinedNamespace : undefinedNamespaces) {
+                mathNode->addNamespaceDefinition(undefinedNamespace.second, undefinedNamespace.first);
+            }
+
             std::string math = mathNode->convertToString() + "\n";
             if (childType == "test_value") {
                 reset->appendTestValue(math);
